@@ -193,3 +193,126 @@ pub fn set_jitter_override(jitter: Option<Duration>) {
 pub(crate) fn jitter_override() -> Option<Duration> {
     *JITTER.lock().unwrap()
 }
+
+//
+// Certificate verifiers and identity extraction (crypto.rs, config.rs)
+//
+
+fn unix_time(now_unix_secs: Option<u64>) -> rustls::pki_types::UnixTime {
+    match now_unix_secs {
+        Some(s) => rustls::pki_types::UnixTime::since_unix_epoch(Duration::from_secs(s)),
+        None => rustls::pki_types::UnixTime::now(),
+    }
+}
+
+pub fn peer_id_from_certificate(der: &[u8]) -> Result<PeerId, String> {
+    let cert = rustls::pki_types::CertificateDer::from(der.to_vec());
+    crate::crypto::peer_id_from_certificate(&cert).map_err(|e| format!("{e:?}"))
+}
+
+/// `CertVerifier::verify_server_cert`, or `ExpectedCertVerifier::verify_server_cert` when an
+/// expected identity is given.
+pub fn verify_server_cert(
+    server_names: Vec<String>,
+    expected_peer_id: Option<PeerId>,
+    end_entity: &[u8],
+    sni: &str,
+    now_unix_secs: Option<u64>,
+) -> Result<(), String> {
+    use rustls::client::danger::ServerCertVerifier;
+    let cert = rustls::pki_types::CertificateDer::from(end_entity.to_vec());
+    let name = rustls::pki_types::ServerName::try_from(sni.to_owned()).map_err(|e| format!("{e:?}"))?;
+    let verifier = crate::crypto::CertVerifier { server_names };
+    let now = unix_time(now_unix_secs);
+    match expected_peer_id {
+        Some(peer_id) => crate::crypto::ExpectedCertVerifier(verifier, peer_id)
+            .verify_server_cert(&cert, &[], &name, &[], now),
+        None => verifier.verify_server_cert(&cert, &[], &name, &[], now),
+    }
+    .map(|_| ())
+    .map_err(|e| format!("{e:?}"))
+}
+
+/// `CertVerifier::verify_client_cert`.
+pub fn verify_client_cert(
+    server_names: Vec<String>,
+    end_entity: &[u8],
+    now_unix_secs: Option<u64>,
+) -> Result<(), String> {
+    use rustls::server::danger::ClientCertVerifier;
+    let cert = rustls::pki_types::CertificateDer::from(end_entity.to_vec());
+    crate::crypto::CertVerifier { server_names }
+        .verify_client_cert(&cert, &[], unix_time(now_unix_secs))
+        .map(|_| ())
+        .map_err(|e| format!("{e:?}"))
+}
+
+/// (offer_client_auth, client_auth_mandatory) of the client-certificate verifier.
+pub fn client_auth_policy() -> (bool, bool) {
+    use rustls::server::danger::ClientCertVerifier;
+    let v = crate::crypto::CertVerifier {
+        server_names: vec![],
+    };
+    (v.offer_client_auth(), v.client_auth_mandatory())
+}
+
+/// Signature schemes advertised by the three verifiers (server-cert, pinned server-cert, client-cert).
+pub fn supported_verify_schemes() -> [Vec<u16>; 3] {
+    use rustls::client::danger::ServerCertVerifier;
+    use rustls::server::danger::ClientCertVerifier;
+    let v = crate::crypto::CertVerifier {
+        server_names: vec![],
+    };
+    let f = |s: Vec<rustls::SignatureScheme>| s.into_iter().map(u16::from).collect::<Vec<u16>>();
+    [
+        f(ServerCertVerifier::supported_verify_schemes(&v)),
+        f(ServerCertVerifier::supported_verify_schemes(
+            &crate::crypto::ExpectedCertVerifier(v.clone(), PeerId([0; 32])),
+        )),
+        f(ClientCertVerifier::supported_verify_schemes(&v)),
+    ]
+}
+
+/// `verify_tls13_signature` of verifier `which` (0 server-cert, 1 pinned server-cert, 2 client-cert)
+/// for a CertificateVerify carrying `scheme` and `signature`.
+pub fn verify_tls13_signature(
+    which: usize,
+    message: &[u8],
+    end_entity: &[u8],
+    scheme: u16,
+    signature: &[u8],
+) -> Result<(), String> {
+    use rustls::client::danger::ServerCertVerifier;
+    use rustls::internal::msgs::codec::{Codec, Reader};
+    use rustls::server::danger::ClientCertVerifier;
+    let mut enc = scheme.to_be_bytes().to_vec();
+    enc.extend_from_slice(&(signature.len() as u16).to_be_bytes());
+    enc.extend_from_slice(signature);
+    let dss = rustls::DigitallySignedStruct::read(&mut Reader::init(&enc))
+        .map_err(|e| format!("{e:?}"))?;
+    let cert = rustls::pki_types::CertificateDer::from(end_entity.to_vec());
+    let v = crate::crypto::CertVerifier {
+        server_names: vec![],
+    };
+    match which {
+        0 => ServerCertVerifier::verify_tls13_signature(&v, message, &cert, &dss),
+        1 => ServerCertVerifier::verify_tls13_signature(
+            &crate::crypto::ExpectedCertVerifier(v, PeerId([0; 32])),
+            message,
+            &cert,
+            &dss,
+        ),
+        _ => ClientCertVerifier::verify_tls13_signature(&v, message, &cert, &dss),
+    }
+    .map(|_| ())
+    .map_err(|e| format!("{e:?}"))
+}
+
+/// The certificate and identity an `EndpointConfig` builds for a key and a network name.
+pub fn endpoint_identity(private_key: [u8; 32], server_name: &str) -> Result<(PeerId, String)> {
+    let config = crate::config::EndpointConfig::builder()
+        .server_name(server_name)
+        .private_key(private_key)
+        .build()?;
+    Ok((config.peer_id(), config.server_name().to_owned()))
+}
